@@ -382,6 +382,30 @@ def r13_4_5(ctx: Ctx) -> None:
                     ok = ast.literal_eval(default) < 0
                 except (ValueError, TypeError):
                     ok = False
+            elif isinstance(other, ast.Name) and loop is not None:
+                # the same, spelled as two arms: the remembered score where the profile is in the table, a value below
+                # every score where it is not
+                from ..flow import fact_texts
+                arms = [n for n in walk_local(loop) if isinstance(n, ast.Assign) and txt(n.targets[0]) == other.id]
+                seen_kinds = set()
+                good = bool(arms)
+                for arm in arms:
+                    value = arm.value
+                    facts = fact_texts(cfg, arm)
+                    if isinstance(value, ast.Subscript) and txt(value.slice) == str(pos[0]) \
+                            and txt(value.value) == f"{table}[{hit}.query_id]" and f"{hit}.query_id in {table}" in facts:
+                        seen_kinds.add("remembered")
+                        continue
+                    try:
+                        below = ast.literal_eval(value) < 0
+                    except (ValueError, TypeError):
+                        below = False
+                    if below and f"not {hit}.query_id in {table}" in facts | {f.replace(" not in ", " in ").replace(f"{hit}", f"not {hit}", 1)
+                                                                               for f in facts if " not in " in f}:
+                        seen_kinds.add("none yet")
+                        continue
+                    good = False
+                ok = good and seen_kinds == {"remembered", "none yet"}
     ctx.ob("R13.4", CP, stores[0] if stores else func, "filter_result_multiple", "best per profile", ok,
            "per profile the hit with the maximum score is kept, remembered with its index in the gene's hit list", form=form)
     srt = [c for c in calls(func) if call_name(c) == "sorted"]
